@@ -47,6 +47,7 @@ ASSUMPTIONS = [
     "relaxation: a failed creation whose directory reopens with exactly the complete new input is accepted",
 ]
 PROBES = [
+    "stall_fault_armed",
     "libc_errno_fired",
     "fault_in_first_chunk",
     "fault_in_middle_chunk",
@@ -164,6 +165,13 @@ def gen_cases(tier: str, verif_seed: int, runs: int | None = None) -> list[dict]
                     cases.append(_base(p, w, fault=dict(kind="writer_killed", k=k)))
                     p = prng()
                     cases.append(_base(p, w, prior="catalog", overwrite=True, fault=dict(kind="writer_killed", k=k)))
+            # --- a peer is slow or stalled: the k-th timed wait that finds nothing outlasts its timeout
+            # (k = 0: every one).  The pinned library waits without timeouts, so this is a control
+            # there; code that gives up waiting must raise or retry, never finalise what it has
+            if w > 1:
+                for k in (0, 1, 2, 4):
+                    p = prng()
+                    cases.append(_base(p, w, fault=dict(kind="stalled_peer", k=k)))
             # --- errno at every mutating fs event
             for en in ("ENOSPC", "EACCES", "EIO", "EROFS"):
                 p = prng()
@@ -290,6 +298,9 @@ def evaluate(case: dict, o: dict) -> tuple[dict | None, str | None]:
         fired = bool(o["fault_fired"].get("kill_task"))
     if kind == "nonfinite" and fault["column"] not in o["records"]:
         fired = False
+    if kind == "stalled_peer":
+        # giving up may be reported (raise) or overcome (retry): both are fine, each with its obligations
+        fired = bool(o["fault_fired"].get("timeouts_fire")) and o["outcome"] != "returned"
     expect_raise = kind is not None and fired
     o["fault_effective"] = expect_raise
 
@@ -355,7 +366,7 @@ def evaluate(case: dict, o: dict) -> tuple[dict | None, str | None]:
         elif opened:
             # accepted only if it holds exactly the complete new input
             ok = False
-            if kind in ("fs_errno", "pool_memerror", "writer_killed"):
+            if kind in ("fs_errno", "pool_memerror", "writer_killed", "stalled_peer"):
                 try:
                     cache = orc.read_cache(target)
                     cols, parts, amb = orc.expected_partition(
@@ -536,6 +547,8 @@ def run_case(case: dict) -> dict:
                 effective = o.get("fault_effective", False)
                 if kind is None:
                     probes["control_fault_free"] = probes.get("control_fault_free", 0) + 1
+                if kind == "stalled_peer":
+                    probes["stall_fault_armed"] = probes.get("stall_fault_armed", 0) + 1
                 if effective:
                     faults[kind] = faults.get(kind, 0) + 1
                     if "pos" in f:
